@@ -38,7 +38,9 @@ func (f *H265) unmarshal(ctx *unmarshalContext) error {
 			}
 
 			// some cameras ship parameters with Annex-B prefix
-			f.VPS = bytes.TrimPrefix(f.VPS, []byte{0, 0, 0, 1})
+			for bytes.HasPrefix(f.VPS, []byte{0, 0, 0, 1}) {
+				f.VPS = f.VPS[4:]
+			}
 
 		case "sprop-sps":
 			var err error
@@ -48,7 +50,9 @@ func (f *H265) unmarshal(ctx *unmarshalContext) error {
 			}
 
 			// some cameras ship parameters with Annex-B prefix
-			f.SPS = bytes.TrimPrefix(f.SPS, []byte{0, 0, 0, 1})
+			for bytes.HasPrefix(f.SPS, []byte{0, 0, 0, 1}) {
+				f.SPS = f.SPS[4:]
+			}
 
 			var spsp h265.SPS
 			err = spsp.Unmarshal(f.SPS)
@@ -64,7 +68,9 @@ func (f *H265) unmarshal(ctx *unmarshalContext) error {
 			}
 
 			// some cameras ship parameters with Annex-B prefix
-			f.PPS = bytes.TrimPrefix(f.PPS, []byte{0, 0, 0, 1})
+			for bytes.HasPrefix(f.PPS, []byte{0, 0, 0, 1}) {
+				f.PPS = f.PPS[4:]
+			}
 
 			var ppsp h265.PPS
 			err = ppsp.Unmarshal(f.PPS)
